@@ -45,6 +45,7 @@ def run(Q, maxn, exact=False, carrier="dense", vectors=None):
         conv = (lambda m: sparse.csr_array(m)) if carrier == "sparse" else (lambda m: m)
         H = {n: conv(m.real.copy() if real else m) for n, m in Q["terms"].items()}
     kw = dict(subspace_eigenvectors=vectors) if vectors is not None else dict(subspace_indices=blocks)
+    if Q.get("atol") is not None: kw["atol"] = Q["atol"]
     Ht, U, Ui = block_diagonalize(H, fully_diagonalize=Q["fd"], hermitian=Q["hermitian"], **kw)
     out = {}
     for name, S_ in (("H_tilde", Ht), ("U", U), ("U_inv", Ui)):
@@ -79,7 +80,7 @@ def main(seed, ncases, driver, out):
         k, d, N = P["k"], P["d"], P["N"]
         maxn = (3,) if k == 1 else (2, 2)
         if exact: maxn = (2,) if k == 1 else (1, 1)
-        Q = copy.deepcopy(P); maxq = maxn; vectors = None; rel = None
+        Q = copy.deepcopy(P); maxq = maxn; vectors = None; rel = None; post = lambda name, m: m
         rng = np.random.default_rng(rnd.randrange(2**31)); carrier = rnd.choice(["dense", "sparse"])
         try:
             if tr == "scale":
@@ -142,8 +143,12 @@ def main(seed, ncases, driver, out):
                 if np.abs(np.diag(Q["terms"][z])).max() == 0: Q["terms"][z] = Q["terms"][z] + np.eye(d); cshift += 1
                 rel = lambda base, name, n: base[(name, n)] + (cshift * np.eye(d) if name == "H_tilde" and not any(n) else 0)
             elif tr == "scale-whole":
-                s_ = rnd.choice([2.0, 0.5, 4.0]); Q["terms"] = {n: s_ * m for n, m in P["terms"].items()}
-                rel = lambda base, name, n: base[(name, n)] * (s_ if name == "H_tilde" else 1.0)
+                # any positive scale: other units (energies of 1e-20 or 1e+12) with the absolute tolerance given in the same units
+                s_ = rnd.choice([2.0, 0.5, 4.0, 2.0 ** -70, 2.0 ** -40, 2.0 ** -30, 2.0 ** 40]); Q["terms"] = {n: s_ * m for n, m in P["terms"].items()}
+                if not (0.1 < s_ < 10) and not exact: Q["atol"] = 1e-12 * s_
+                if exact and not (0.1 < s_ < 10): s_ = 2.0; Q["terms"] = {n: s_ * m for n, m in P["terms"].items()}
+                rel = lambda base, name, n: base[(name, n)]
+                post = lambda name, m: m / s_ if name == "H_tilde" else m
             elif tr == "direct-sum":
                 if not hermitian:       # dropping `fully_diagonalize` from a part could move it into the class of finding D5
                     hermitian = True; P = problem(rnd, True, k); d, N = P["d"], P["N"]; Q = copy.deepcopy(P)
@@ -179,6 +184,7 @@ def main(seed, ncases, driver, out):
         for (name, n), m in other.items():
             try: want = rel(base, name, n)
             except KeyError: continue
+            m = post(name, m)
             evals += 1; err = float(np.abs(m - want).max()); scale = 1 + float(np.abs(want).max()); worst = max(worst, err / scale)
             if err > 1e-9 * scale: bad = bad or {"kind": "relation-fails", "series": name, "order": list(n), "abs_err": err}
         distinct += 1
